@@ -39,7 +39,7 @@ func init() {
 				return 500_000
 			}, Run: c14Options,
 				Min: map[string]int64{"decodes": 100000, "with_palette_options": 50000, "with_color_at_options": 50000, "nonsensical_user_colors": 20000, "gradient_looking_user_colors": 5000,
-					"replacement_after_override": 5000, "paths": 100000, "flat": 50000, "suggested_palette_in_file": 30000, "non_rgba_color_models": 20000, "option_table_prefix_used_first": 10000, "replacement_equals_default_palette": 3000, "renderer_reused_after_same_palette": 100000}},
+					"replacement_after_override": 5000, "paths": 100000, "flat": 50000, "suggested_palette_in_file": 30000, "non_rgba_color_models": 20000, "option_table_prefix_used_first": 10000, "replacement_equals_default_palette": 3000, "renderer_reused_after_same_palette": 100000, "same_graphic_decoded_before_with_other_options": 50000}},
 		},
 	})
 }
@@ -55,6 +55,15 @@ func c14Options(c *run.Ctx, idx uint64) {
 	}
 	e.Reset(ivg.DefaultViewBox, filePal)
 	nPaths := r.Range(1, 6)
+	// The graphic's first and last colour writes are the same indirect colour
+	// (palette entry k0), the first one used by a path at once.
+	k0 := uint8(r.Intn(64))
+	e.SetCSel(41)
+	e.SetCReg(0, false, ivg.PaletteIndexColor(k0))
+	e.StartPath(0, -6, -6)
+	e.AbsLineTo(6, -6)
+	e.AbsLineTo(0, 6)
+	e.ClosePathEndPath()
 	// a valid gradient set up in fixed registers, so that a gradient-looking
 	// user colour would really render as one if it were not sanitised
 	e.SetNSel(20)
@@ -81,6 +90,8 @@ func c14Options(c *run.Ctx, idx uint64) {
 		e.AbsLineTo(8, 8)
 		e.ClosePathEndPath()
 	}
+	e.SetCSel(41)
+	e.SetCReg(0, false, ivg.PaletteIndexColor(k0))
 	bb, err := e.Bytes()
 	if err != nil {
 		c.Violate("harness/encoder-error", map[string]interface{}{"error": err.Error()})
@@ -203,6 +214,14 @@ func c14Options(c *run.Ctx, idx uint64) {
 		if db, err := e2.Bytes(); err == nil {
 			db = append([]byte(nil), db...)
 			if !c.Guard("Decode(dirtying graphic)", func() interface{} { return desc(nil) }, func() { decode.Decode(&z, db, opts...) }) {
+				return
+			}
+		}
+		if r.Bool() {
+			// and then this very graphic, under options that give entry k0 another colour
+			c.Count("same_graphic_decoded_before_with_other_options", 1)
+			other := append(append([]decode.DecodeOption(nil), opts...), decode.WithColorAt(int(k0), color.RGBA{0x12, 0xee, 0x34, 0xff}))
+			if !c.Guard("Decode(same graphic, other options)", func() interface{} { return desc(nil) }, func() { decode.Decode(&z, b, other...) }) {
 				return
 			}
 		}
